@@ -101,7 +101,27 @@ def observe_text(c):
                 o['eof'], o['off'] = impl.pos_to_offset(text, getattr(e, 'line', None), getattr(e, 'column', None))
                 o['haspos'] = bool(o['eof'] or o['off'] >= 0)
         out[key] = o
+    # the caller's own gate-set dictionary, shared by every text this worker process handles: what a text does with it
+    # must be what it does with a fresh copy, and the dictionary must come back unchanged
+    from . import gates
+    _shared_gates()
+    fresh = gates.exact_gates()
+    _, e1 = impl.with_cpu_limit(lambda: parse_jaqal_string(text, inject_pulses=_SHARED, autoload_pulses=False), seconds=3)
+    _, e2 = impl.with_cpu_limit(lambda: parse_jaqal_string(text, inject_pulses=fresh, autoload_pulses=False), seconds=3)
+    cls = lambda e: 'ok' if e is None else ('timeout' if isinstance(e, impl.Timeout) else impl.classify_exc(e))
+    out['shared'] = {'cls': cls(e1), 'fresh_cls': cls(e2), 'unchanged': sorted(_SHARED) == sorted(fresh) and all(type(_SHARED[k]) is type(fresh[k]) for k in fresh)}
     return out
+
+
+_SHARED = None
+
+
+def _shared_gates():
+    global _SHARED
+    if _SHARED is None:
+        from . import gates
+        _SHARED = gates.exact_gates()
+    return _SHARED
 
 
 def mutate(text, rng):
